@@ -729,11 +729,17 @@ func (ex *Exec) rangeInit(st *State, in *ssa.Range, x Value) Value {
 		it.Str = s
 	} else {
 		// map: snapshot (documented deviation: values are those at range start)
+		// a guarded choice of maps (after a merge): the entries of every alternative, each present only under its guard
 		for _, o := range ex.mapObj(st, x) {
-			if !o.g.IsTrue() {
-				panic(unsupported("range over a symbolic choice of maps"))
+			if st.known(o.g) == 0 {
+				continue
 			}
-			it.Keys, it.Pres, it.Vals = ex.mapSnapshot(st, o.mv)
+			ks, ps, vs := ex.mapSnapshot(st, o.mv)
+			for i := range ks {
+				it.Keys = append(it.Keys, ks[i])
+				it.Pres = append(it.Pres, And(o.g, ps[i]))
+				it.Vals = append(it.Vals, vs[i])
+			}
 		}
 	}
 	it.PosObj = ex.newObj(st, Value(i64(0)))
